@@ -117,3 +117,11 @@ package cache
 //@ func (c *RedisCache) Collectors() (cs []prometheus.Collector)
 //@   trusted
 //@   modifies nothing
+//@ func (c *MemoryCache) Close() (err error)
+//@   trusted
+//@   requires c != nil
+//@   modifies nothing
+//@ func (c *RedisCache) Close() (err error)
+//@   trusted
+//@   requires c != nil
+//@   modifies nothing
